@@ -31,8 +31,11 @@ def clang_args_of(args):
 
 
 def classify(path, cargs, cwd):
-    """clang 14 binary: (accepted?, first error message)."""
-    rc, _, err = common.clang(["-fsyntax-only", "-Wno-everything", "-fno-spell-checking"] + cargs + [path], cwd=cwd, timeout=60)
+    """clang 14 binary with bindgen's arguments and default diagnostic options (warnings that default to errors stay errors):
+    (accepted?, first error message). An input on which clang itself crashes is neither accepted nor rejected: ("oracle-crashed", ..)."""
+    rc, _, err = common.clang(["-fsyntax-only", "-fno-spell-checking"] + cargs + [path], cwd=cwd, timeout=60)
+    if rc not in (0, 1) or "PLEASE submit a bug report" in err:
+        return "oracle-crashed", "clang itself crashes on this input"
     m = re.search(r"(?:fatal error|error): (.*)", err)
     return rc == 0, (m.group(1).strip() if m else err.strip()[:200])
 
@@ -85,6 +88,10 @@ def new_check(tier):
 
 def judge(ck, case, det, r, accepted, msg, nontriv_key=None):
     st = r["status"]
+    if accepted == "oracle-crashed":
+        # outside the quantifier: clang neither accepts nor rejects an input that crashes clang
+        ck.extra["inputs_on_which_clang_itself_crashes"] = ck.extra.get("inputs_on_which_clang_itself_crashes", 0) + 1
+        return
     if st in ("panic", "crash", "timeout"):
         why = {"panic": f"panicked: {r.get('panic')}", "crash": f"process died (exit {r.get('exit_code')}, signal {r.get('signal')})",
                "timeout": "did not terminate within the watchdog"}[st]
@@ -184,7 +191,7 @@ def run(ck, only=None):
                 acc, _ = klass[jid]
                 st = res[jid]["status"]
                 # calibration: the clang binary and libclang-through-bindgen must agree on the unmutated header
-                calibrated[bn] = (acc and st == "ok") or (not acc and st == "err")
+                calibrated[bn] = (acc is True and st == "ok") or (acc is False and st == "err")
         nacc = nrej = 0
         for jid in sorted(info):
             _, bn, mname = jid.split("|")
@@ -193,10 +200,10 @@ def run(ck, only=None):
             ck.count()
             if differs:
                 ck.nontriv(jid)
-            nacc += acc
-            nrej += (not acc)
+            nacc += (acc is True)
+            nrej += (acc is False)
             det = {"kind": "mutant", "header": bn, "mutant": mname}
-            judge(ck, f"mutant {bn} {mname}", det, res[jid], acc if calibrated.get(bn) else None, msg)
+            judge(ck, f"mutant {bn} {mname}", det, res[jid], acc if (calibrated.get(bn) or acc == "oracle-crashed") else None, msg)
         ck.extra["mutants"] = len(info)
         ck.extra["mutants_accepted_by_clang"] = nacc
         ck.extra["mutants_rejected_by_clang"] = nrej
